@@ -191,8 +191,20 @@ def random_snapshot(rng, names=NAMES, groups=GROUPS, locs=LOCS):
             for n in rng.sample(names, k)]
 
 
+# in a quarter of the random histories the lights report group and location
+# names that differ from others only by a blank at either end or by case:
+# different groups / locations all the same
+PADDED_GROUPS = GROUPS + ['G1 ', ' G2', 'g3']
+PADDED_LOCS = LOCS + ['L1 ', 'l2']
+
+
 def random_history(rng):
     steps = []
+    if rng.random() < 0.25:
+        def snap(r, _orig=random_snapshot):
+            return _orig(r, NAMES + ['A', 'a '], PADDED_GROUPS, PADDED_LOCS)
+    else:
+        snap = random_snapshot
     if rng.random() < 0.2:
         # another configured age, zero included (everything not seen in the
         # latest discovery is then gone at the next expiry)
@@ -200,13 +212,13 @@ def random_history(rng):
     for _ in range(rng.randint(1, 12)):
         r = rng.random()
         if r < 0.4:
-            steps.append(('discover', random_snapshot(rng)))
+            steps.append(('discover', snap(rng)))
         elif r < 0.5:
-            steps.append(('discover-fails', random_snapshot(rng)))
+            steps.append(('discover-fails', snap(rng)))
         elif r < 0.75:
-            steps.append(('refresh', random_snapshot(rng)))
+            steps.append(('refresh', snap(rng)))
         elif r < 0.8:
-            steps.append(('refresh-fails', random_snapshot(rng)))
+            steps.append(('refresh-fails', snap(rng)))
         else:
             steps.append(('advance', rng.choice([0, 1, 100, 299, 300, 301,
                                                  150, 600])))
